@@ -238,6 +238,7 @@ func runC18Case(c *fw.Ctx, id string, cs c18Case) {
 				calls = append(calls, mkCall(ctx, st.Kind == "early" || (st.Kind == "single" && i%2 == 0)))
 			}
 			var h chan struct{}
+			holdStart := time.Now()
 			if st.Kind == "cancelled" || st.Kind == "ooo" {
 				h = make(chan struct{})
 				hold.Store(h)
@@ -256,8 +257,9 @@ func runC18Case(c *fw.Ctx, id string, cs c18Case) {
 				if len(cc) > 0 {
 					fc := cc[len(cc)-1]
 					base := fc.Counts()
-					for i := 0; i < 100 && !settled; i++ {
-						time.Sleep(5 * time.Millisecond)
+					// (the replies must not be held for longer than a fraction of the read timeout)
+					for i := 0; i < 100 && !settled && time.Since(holdStart) < cs.Timeout*4/10; i++ {
+						time.Sleep(3 * time.Millisecond)
 						now := fc.Counts()
 						settled = now[faultconn.Write] == base[faultconn.Write] && now[faultconn.SetReadDeadline] == base[faultconn.SetReadDeadline] &&
 							now[faultconn.Write] > 1 && i > 0
@@ -282,6 +284,12 @@ func runC18Case(c *fw.Ctx, id string, cs c18Case) {
 				}
 				hold.Store((chan struct{})(nil))
 				close(h)
+				if held := time.Since(holdStart); held > cs.Timeout*8/10 {
+					// the harness itself kept the server silent for about a read
+					// timeout (machine load): whatever the client did is legitimate
+					c.Inconclusive("replies-held-too-long")
+					return
+				}
 			}
 			var errs []error
 			select {
